@@ -573,6 +573,68 @@ fn pid_core_body(lookups: usize, named_conflict: bool) -> vsched::Body {
     })
 }
 
+/// A named actor whose start fails (spawn_instant: the handle exists before pre_start ran); a task that holds
+/// the handle polls its status and, as soon as it reads Stopped, calls wait() (which then returns at once),
+/// looks the name up and tries to take it. Failed starts release the name like every other exit.
+fn failed_instant_body(panic: bool, local: bool) -> vsched::Body {
+    Arc::new(move || {
+        Box::pin(async move {
+            let log = Log::default();
+            let spawner = ractor::thread_local::ThreadLocalActorSpawner::verif_new_local();
+            let prog = Prog { pre_start: vec![Step::Yield, if panic { Step::Panic("no") } else { Step::Err("no") }], ..Default::default() };
+            let a = args("F", prog, &log);
+            let spawned = if local {
+                <Probe as ractor::thread_local::ThreadLocalActor>::spawn_instant(Some("N".into()), a, spawner.clone())
+            } else {
+                ractor::ActorRuntime::<Probe>::spawn_instant(Some("N".into()), Probe, a)
+            };
+            let (r, outer) = spawned.expect("spawn_instant returns the handle at once");
+            let id = r.get_id();
+            let r2 = r.clone();
+            let log2 = log.clone();
+            let poller = vsched::spawn("waiter", async move {
+                for _ in 0..200 {
+                    if r2.get_status() == ActorStatus::Stopped {
+                        break;
+                    }
+                    vsched::yield_now().await;
+                }
+                let _ = r2.wait(Some(std::time::Duration::from_millis(50))).await;
+                let ret = vsched::ret_stamp();
+                let seen = ractor::registry::where_is("N").map(|c| c.get_id());
+                #[cfg(feature = "alt")]
+                let seen_pid = ractor::registry::where_is_pid(r2.get_id()).is_some();
+                #[cfg(not(feature = "alt"))]
+                let seen_pid = false;
+                let again = Actor::spawn(Some("N".into()), Probe, args("G", Prog::default(), &log2)).await;
+                (ret, seen, seen_pid, again)
+            });
+            vsched::quiesce_time();
+            let _ = outer.await;
+            let (_ret, seen, seen_pid, again) = poller.await.expect("poller");
+            let mut bad = Vec::new();
+            if seen == Some(id) {
+                bad.push("where_is returned the actor of a failed start after its wait() had returned".to_string());
+            }
+            if seen_pid {
+                bad.push("where_is_pid returned the actor of a failed start after its wait() had returned".to_string());
+            }
+            match again {
+                Ok((g, gh)) => {
+                    g.stop(None);
+                    let _ = gh.await;
+                }
+                Err(e) => bad.push(format!("after the failed start's wait() returned, the name could not be taken: {e}")),
+            }
+            vsched::quiesce();
+            if !ractor::registry::verif_snapshot().is_empty() {
+                bad.push(format!("names left: {:?}", ractor::registry::verif_snapshot()));
+            }
+            Outcome { key: format!("seen={}", seen.is_some()), violations: bad }
+        })
+    })
+}
+
 const S_KINDS: &[PointKind] = &[PointKind::Atomic, PointKind::Lock, PointKind::Map, PointKind::Other];
 
 pub fn plan(tier: &str) -> Plan {
@@ -599,6 +661,12 @@ pub fn plan(tier: &str) -> Plan {
     for exit in [Exit::Stop, Exit::Kill, Exit::FailedStart] {
         units.push(Unit::explore_split(Job::new(format!("live/{exit:?}"), live_cfg.clone(), Some(lb), live_body(exit)), 8));
     }
+    for (panic, local) in [(false, false), (true, false), (false, true)] {
+        units.push(Unit::explore_split(
+            Job::new(format!("live/instant-failed-start/{}/{}", if panic { "panic" } else { "err" }, if local { "local" } else { "send" }), live_cfg.clone(), Some(lb), failed_instant_body(panic, local)),
+            4,
+        ));
+    }
     for exit in [Exit::Stop, Exit::FailedStart] {
         units.push(Unit::explore_split(Job::new(format!("live-linked/{exit:?}"), live_cfg.clone(), Some(lb), live_body_x(exit, true)), 8));
     }
@@ -613,6 +681,7 @@ pub fn plan(tier: &str) -> Plan {
         ("alt/live/Stop".into(), live_cfg.clone(), Some(lb), live_body(Exit::Stop), 8),
         ("alt/live/Kill".into(), live_cfg.clone(), Some(lb), live_body(Exit::Kill), 8),
         ("alt/live/FailedStart".into(), live_cfg.clone(), Some(lb), live_body(Exit::FailedStart), 8),
+        ("alt/live/instant-failed-start/err/send".into(), live_cfg.clone(), Some(lb), failed_instant_body(false, false), 4),
     ];
     for (name, cfg, bound, b, split) in alt_units {
         units.push(alt_unit(name, cfg, bound, b, split));
